@@ -235,7 +235,7 @@ class Run:
                     k = json.loads(line)
                 except Exception:
                     continue
-                if k.get("status") == "known" and k.get("property") == self.pid:
+                if k.get("status") == "known" and self.pid in k.get("properties", [k.get("property")]):
                     known.append(k)
         return known
 
@@ -263,7 +263,7 @@ class Run:
         for v in self.violations:
             hit = None
             for k in known:
-                if k.get("inv") == v["inv"] and re.search(k.get("run_regex", ".*"), v.get("run", "")) and \
+                if re.fullmatch(k.get("inv_regex", re.escape(k.get("inv", ""))), v["inv"]) and re.search(k.get("run_regex", ".*"), v.get("run", "")) and \
                         re.search(k.get("detail_regex", ".*"), v.get("detail", "")):
                     hit = k
                     break
